@@ -1,6 +1,7 @@
 // Multi-purpose sandbox target (static).  Usage: target <cmd> [args...]
 //   exit N | sig S | sleep MS | spin | hello
 #define _GNU_SOURCE
+#include <dirent.h>
 #include <errno.h>
 #include <fcntl.h>
 #include <signal.h>
@@ -111,11 +112,22 @@ int main(int argc, char **argv) {
       const char *k = argv[i], *p = argv[i + 1], *tg = (i + 2 < argc) ? argv[i + 2] : "-";
       int rc = 0;
       if (!strcmp(k, "reg")) { int fd = open(p, O_CREAT | O_WRONLY | O_TRUNC, 0644); if (fd < 0) rc = -1; else { if (strcmp(tg, "-")) write(fd, tg, strlen(tg)); close(fd); } }
+      else if (!strcmp(k, "regx")) { int fd = open(p, O_CREAT | O_EXCL | O_WRONLY, 0644); if (fd < 0) rc = -1; else { if (strcmp(tg, "-")) write(fd, tg, strlen(tg)); close(fd); } }
       else if (!strcmp(k, "dir")) rc = mkdir(p, 0755);
       else if (!strcmp(k, "fifo")) rc = mkfifo(p, 0666);
       else if (!strcmp(k, "sym")) rc = symlink(tg, p);
       else if (!strcmp(k, "hard")) rc = link(tg, p);
       else if (!strcmp(k, "chmod")) rc = chmod(p, strtol(tg, NULL, 8));
+      else if (!strcmp(k, "many")) {   // tg files named f<i> in directory p
+        static char q[8192]; int cnt = atoi(tg);
+        for (int j = 0; j < cnt; j++) { snprintf(q, sizeof q, "%s/f%d", p, j); int fd = open(q, O_CREAT | O_EXCL | O_WRONLY, 0600); if (fd < 0) { rc = -1; break; } close(fd); }
+      } else if (!strcmp(k, "deep")) { // a chain of tg directories named d below p (deeper than PATH_MAX allows to name)
+        int cnt = atoi(tg); int back = open(".", O_RDONLY | O_DIRECTORY);
+        if (chdir(p) != 0) rc = -1;
+        for (int j = 0; rc == 0 && j < cnt; j++) { if (mkdir("d", 0700) != 0 || chdir("d") != 0) rc = -1; }
+        if (rc == 0) { int fd = open("leaf", O_CREAT | O_WRONLY, 0600); if (fd >= 0) close(fd); }
+        fchdir(back); close(back);
+      }
       else if (!strcmp(k, "sock")) {
         int s = socket(AF_UNIX, SOCK_STREAM, 0); struct sockaddr_un a; memset(&a, 0, sizeof a); a.sun_family = AF_UNIX;
         strncpy(a.sun_path, p, sizeof a.sun_path - 1); rc = bind(s, (struct sockaddr *)&a, sizeof a); close(s);
@@ -123,6 +135,46 @@ int main(int argc, char **argv) {
       if (rc != 0) fails++;
     }
     _exit(fails);
+  } else if (!strcmp(c, "census")) {
+    // top-level names of each directory: {"DIR": ["name", ...] | null}; names printed as hex
+    static char buf[1 << 20]; int n = 0; n += snprintf(buf + n, sizeof buf - n, "{");
+    for (int i = 2; i < argc; i++) {
+      n += snprintf(buf + n, sizeof buf - n, "%s\"%s\":", i > 2 ? "," : "", argv[i]);
+      DIR *d = opendir(argv[i]);
+      if (!d) { n += snprintf(buf + n, sizeof buf - n, "null"); continue; }
+      n += snprintf(buf + n, sizeof buf - n, "["); int first = 1; struct dirent *e;
+      while ((e = readdir(d))) {
+        if (!strcmp(e->d_name, ".") || !strcmp(e->d_name, "..")) continue;
+        n += snprintf(buf + n, sizeof buf - n, "%s\"", first ? "" : ","); first = 0;
+        for (unsigned char *q = (unsigned char *)e->d_name; *q && n < (int)sizeof buf - 16; q++) n += snprintf(buf + n, sizeof buf - n, "%02x", *q);
+        n += snprintf(buf + n, sizeof buf - n, "\"");
+      }
+      closedir(d); n += snprintf(buf + n, sizeof buf - n, "]");
+    }
+    n += snprintf(buf + n, sizeof buf - n, "}\n");
+    write(1, buf, n);
+    _exit(0);
+  } else if (!strcmp(c, "selfmod")) {
+    // try to modify the running executable through /proc/self/exe and every inherited descriptor; prints what succeeded
+    static char buf[4096]; int n = 0; int ok = 0;
+    int fd = open("/proc/self/exe", O_WRONLY); if (fd >= 0) { if (write(fd, "X", 1) == 1) ok |= 1; if (ftruncate(fd, 0) == 0) ok |= 2; close(fd); }
+    fd = open("/proc/self/exe", O_RDWR); if (fd >= 0) { if (pwrite(fd, "X", 1, 0) == 1) ok |= 4; close(fd); }
+    if (truncate("/proc/self/exe", 0) == 0) ok |= 8;
+    for (fd = 3; fd < 64; fd++) {
+      struct stat st; if (fstat(fd, &st) != 0) continue;
+      if (pwrite(fd, "X", 1, 0) == 1) ok |= 16;
+      if (ftruncate(fd, 1) == 0) ok |= 32;
+    }
+    fd = open("/proc/self/exe", O_RDONLY);
+    if (fd >= 0) {
+      if (fcntl(fd, F_ADD_SEALS, 0) == 0) ok |= 64;
+      void *m = mmap(NULL, 4096, PROT_READ | PROT_WRITE, MAP_SHARED, fd, 0); if (m != MAP_FAILED) ok |= 128;
+      int seals = fcntl(fd, F_GET_SEALS); n += snprintf(buf + n, sizeof buf - n, "seals=%d ", seals);
+      close(fd);
+    }
+    n += snprintf(buf + n, sizeof buf - n, "modified=%d\n", ok);
+    write(1, buf, n);
+    _exit(0);
   } else if (!strcmp(c, "kinds")) {
     // lstat kind of each path, one JSON array on stdout
     static char buf[65536]; int n = 0; n += snprintf(buf + n, sizeof buf - n, "[");
